@@ -101,9 +101,18 @@ class Rule:
         return cls.from_spec(json_like)
 
     def to_json_like(self, *args, **kwargs):
+        cast = self.cast
+        if cast is not None:
+            # encode as in the rule spec: a mapping of type names
+            inv_dtype = {v: k for k, v in CAST_DTYPE_LOOKUP.items()}
+            inv_cast = {(k[0], v): k[1] for k, v in CAST_LOOKUP.items()}
+            cast = {
+                inv_dtype[cast_from]: inv_dtype[inv_cast[(cast_from, cast_func)]]
+                for cast_from, cast_func in cast.items()
+            }
         out = {
             "condition": self.condition.to_json_like(),
-            "cast": self.cast,
+            "cast": cast,
             "path": self.path.to_json_like(),
         }
         if "shared_data" in kwargs:
